@@ -89,6 +89,12 @@ pub fn arg(ctx: &mut Ctx, s: &Strata) -> Dd {
             return if ctx.chance(1, 3) { Dd::new(hi, 0.0) } else { dd_at(ctx, hi) };
         }
     }
+    if ctx.chance(1, 14) {
+        if let Some(hi) = format_parameter_multiple(ctx, s.emin, s.emax) {
+            let hi = if s.positive_only { hi.abs() } else { hi };
+            return if ctx.chance(1, 3) { Dd::new(hi, 0.0) } else { dd_at(ctx, hi) };
+        }
+    }
     let c = ctx.weighted(&[5, 5, 5]);
     let hi = match c {
         0 => {
@@ -120,6 +126,47 @@ pub fn arg(ctx: &mut Ctx, s: &Strata) -> Dd {
     let hi = if s.positive_only { hi.abs() } else { hi };
     let hi = if hi == 0.0 || !hi.is_finite() { 1.0 } else { hi };
     dd_at(ctx, hi)
+}
+
+/// Arguments at which a result reaches a limit of the FORMAT: m * c (and m * c / 2, m / c) with c
+/// one of ln 2, ln 10, log2 e, log10 2, pi and m a parameter of binary64 / double-double (24, 52,
+/// 53, 54, 64, 105..108, 112, 113, 128, 1022..1024, 1074, 1075) or any whole number up to 1100:
+/// there e^x, 2^x, 10^x cross 2^m (saturation points of tanh, the last argument for which a second
+/// exponential still matters in cosh / sinh, overflow and underflow thresholds, ...).  Such a
+/// threshold is usually COMPUTED in the source (`0.5 * 112.0 * LN_2.hi`), so the literal dictionary
+/// does not contain it.  The product is formed in f64 the way source code would form it.
+pub fn format_parameter_multiple(ctx: &mut Ctx, emin: i64, emax: i64) -> Option<f64> {
+    const C: [f64; 6] = [
+        std::f64::consts::LN_2,
+        std::f64::consts::LN_2,
+        std::f64::consts::LN_10,
+        std::f64::consts::LOG2_E,
+        std::f64::consts::LOG10_2,
+        std::f64::consts::PI,
+    ];
+    const M: [f64; 24] = [24.0, 52.0, 53.0, 54.0, 64.0, 105.0, 106.0, 107.0, 108.0, 112.0, 113.0, 128.0, 1021.0, 1022.0, 1023.0, 1024.0, 1074.0, 1075.0, 11.0, 8.0, 16.0, 32.0, 63.0, 127.0];
+    let c = C[ctx.below(6) as usize];
+    let m = if ctx.flag() { M[ctx.below(24) as usize] } else { ctx.range(1, 1100) as f64 };
+    let x = match ctx.below(5) {
+        0 => m * c,
+        1 => (0.5 * m) * c,
+        2 => 0.5 * (m * c),
+        3 => m / c,
+        _ => (m * c) * 0.25,
+    };
+    let x = match ctx.below(4) {
+        0 | 1 => x,
+        2 => step(x, ctx.range(-2, 2)),
+        _ => -x,
+    };
+    let x = if ctx.chance(1, 4) { -x } else { x };
+    let e = exponent(x);
+    if x.is_finite() && x != 0.0 && e >= emin && e <= emax {
+        ctx.label("arg:format-parameter-multiple");
+        Some(x)
+    } else {
+        None
+    }
 }
 
 /// p, p +- k ulps, p (1 +- 2^-j)
@@ -179,6 +226,11 @@ pub fn any_valid(ctx: &mut Ctx) -> Dd {
     }
     if ctx.chance(1, 10) {
         if let Some(hi) = source_literal(ctx, -1022, 1023) {
+            return if ctx.chance(1, 3) { Dd::new(hi, 0.0) } else { dd_at(ctx, hi) };
+        }
+    }
+    if ctx.chance(1, 14) {
+        if let Some(hi) = format_parameter_multiple(ctx, -1022, 1023) {
             return if ctx.chance(1, 3) { Dd::new(hi, 0.0) } else { dd_at(ctx, hi) };
         }
     }
